@@ -71,7 +71,7 @@ def gen(repo, out):
     os.makedirs(out, exist_ok=True)
     subprocess.run([sys.executable, os.path.join(VERIF, "tools", "gen_code.py"), repo, os.path.join(out, "Code.lean")], capture_output=True)
     subprocess.run([sys.executable, os.path.join(VERIF, "tools", "gen_constants.py"), repo, os.path.join(out, "Constants.lean")], capture_output=True)
-    return open(os.path.join(out, "Code.lean")).read() + open(os.path.join(out, "CodeImp.lean")).read() + open(os.path.join(out, "CodeStr.lean")).read() + open(os.path.join(out, "CodeKsa.lean")).read() + open(os.path.join(out, "CodeHash.lean")).read() + open(os.path.join(out, "CodeIlv.lean")).read(), open(os.path.join(out, "Constants.lean")).read() + open(os.path.join(out, "Facts.lean")).read()
+    return open(os.path.join(out, "Code.lean")).read() + open(os.path.join(out, "CodeImp.lean")).read() + open(os.path.join(out, "CodeStr.lean")).read() + open(os.path.join(out, "CodeKsa.lean")).read() + open(os.path.join(out, "CodeHash.lean")).read() + open(os.path.join(out, "CodeIlv.lean")).read() + open(os.path.join(out, "CodeApi.lean")).read(), open(os.path.join(out, "Constants.lean")).read() + open(os.path.join(out, "Facts.lean")).read()
 
 def main():
     tmp = tempfile.mkdtemp(prefix="trsel_", dir="/root")
